@@ -1,6 +1,8 @@
 import PGT.Proofs.FromFlat
+import PGT.Proofs.RoundTrip
 import PGT.Props.C19
 import PGT.Props.C20
+import PGT.Props.C03
 /-
 C04 – Object → Terraform → object round trip is lossless.
 Full statement: `C04_full`. Proved: the scalar template (`C04_scalar_roundtrip`), for every row of the type table but
@@ -63,5 +65,88 @@ theorem C04_scalar_roundtrip (ov : List (String × String)) (f : Field) (obj : G
       exact ⟨_, rfl, zero_nf _ _ hrep this.symm⟩
     · simp only [hzv] at hzero
       simp at hzero
+
+/-- **C04 for the plain tree, at every nesting depth.** For every message IR built from scalars, pointer scalars
+(nullable time / duration), placeholders, nested messages (by pointer and by value, also without fields), lists and maps
+of scalars and lists and maps of messages (elements by pointer and by value, nil elements included) – any number of
+fields, nested to any depth – and every typed struct value:
+CopyTo into the object that carries the attribute types and no values succeeds without diagnostics, and CopyFrom of
+the result into a fresh struct succeeds without diagnostics and returns a struct equal to the original in the normal
+form of C04 (`Spec.c04Check`: nil ≡ empty slices / maps / byte strings, ±0 identified, …).
+
+Hypotheses: `ToOKs` (what `C03_total` needs: the value is typed, every attribute has its type) and `RTOKs` (what
+reading back needs: Go field names pairwise distinct, value types fit the kinds, every scalar row round-trips –
+`PrimRT`, established from the regenerated table by `primRT_of_row` / `C19_field` –, map keys distinct; no oneof
+branches, no children of nullable embedded messages, no custom types: those are `C04_scalar_roundtrip` and the
+correspondence). Proof: `C03_total` (mutual induction, `ToRender.lean`) composed with `fromFields_reads` (mutual
+induction, `RoundTrip.lean`). -/
+theorem C04_roundtrip_plain (ov : List (String × String)) (m : Msg) (obj : GoVal) (atys : List (String × TfTy))
+    (hto : ToOKs m.fields obj atys) (hrt : RTOKs m.fields obj) :
+    ∃ r b, copyTo m obj (.obj false false none (some atys)) = .ok r ∧ r.diags = [] ∧
+      copyFrom ov m r.tf (.struct []) = .ok b ∧ b.diags = [] ∧ c04Check m obj b.obj = true := by
+  obtain ⟨r, as, hrun, hd, htf, hren⟩ := C03.C03_total m obj atys hto
+  obtain ⟨o, hfrom, _, hall, _⟩ := fromFields_reads ov m.fields obj (some as)
+    { obj := resetOneOfs m.info.oneOfNames (.struct []) } hren hrt (isStruct_resetOneOfs _ _ trivial)
+  refine ⟨r, { obj := o, diags := [], hooks := [] }, hrun, hd, ?_, rfl, ?_⟩
+  · rw [htf]
+    simp [copyFrom, hfrom]
+  · unfold c04Check
+    exact nfEqFields_of_valNfEq m.fields obj o (fun f hf => ⟨rtoks_oneof m.fields obj hrt f hf, hall f hf⟩)
+
+-- non-vacuity of `C04_roundtrip_plain`: a string, and a nullable nested message holding a list of int32
+def tyS : String := "github.com/hashicorp/terraform-plugin-framework/types.String"
+def tyI : String := "github.com/hashicorp/terraform-plugin-framework/types.Int64"
+def tyL : String := "github.com/hashicorp/terraform-plugin-framework/types.List"
+def tyO : String := "github.com/hashicorp/terraform-plugin-framework/types.Object"
+
+def rtStr : FieldInfo :=
+  { name := "S", nameSnake := "s", kind := .primitive, protoType := "string",
+    tf := { valueType := tyS, elemValueType := tyS, valueCastToType := "string", valueCastFromType := "string", zeroValue := "\"\"" } }
+def rtList : FieldInfo :=
+  { name := "L", nameSnake := "l", kind := .primitiveList, isRepeated := true, protoType := "int32",
+    tf := { valueType := tyL, elemValueType := tyI, valueCastToType := "int64", valueCastFromType := "int32", zeroValue := "0" } }
+def rtNested : FieldInfo := { name := "N", nameSnake := "n", kind := .object, isNullable := true, tf := { valueType := tyO, elemValueType := tyO } }
+def rtFields : List Field := [{ info := rtStr }, { info := rtNested, msg := some { name := "Inner" }, sub := [{ info := rtList }] }]
+def rtObj : GoVal := .struct [("S", .sc (.str [104, 105])), ("N", .ptr (some (.struct [("L", .slice (some [.sc (.w32 7), .sc (.w32 0xffffffff)]))])))]
+def rtTys : List (String × TfTy) := [("s", .prim .string), ("n", .obj (some [("l", .list (some (.prim .int64)))]))]
+
+theorem rtStr_rt : PrimRT rtStr .string :=
+  primRT_of_row rtStr .string (by decide) (by decide) (by decide) (by decide) (by decide)
+theorem rtList_rt : PrimRT rtList .int64 :=
+  primRT_of_row rtList .int64 (by decide) (by decide) (by decide) (by decide) (by decide)
+
+theorem C04_example_hyp : RTOKs rtFields rtObj := by
+  unfold rtFields
+  simp only [RTOKs, RTOK, List.map_cons, List.map_nil, List.mem_cons, List.mem_nil_iff, or_false, not_false_eq_true, and_true]
+  refine ⟨⟨rfl, rfl, by simp [EmptyOK, isEmptyMsg], by decide, ?_⟩, by decide, ⟨rfl, rfl, by simp [EmptyOK, isEmptyMsg], by decide, ?_⟩⟩
+  · right
+    exact ⟨.string, rtStr_rt, by decide, by
+      unfold PrimVal
+      simp only [show rtStr.isNullable = false from rfl, Bool.false_eq_true, if_false]
+      exact ⟨.str [104, 105], by simp [getVal, rtStr, rtObj, GoVal.field?, List.lookup], by simp [rtStr, FieldInfo.rep, repOfGoType, C19.HasRep]⟩⟩
+  · refine ⟨by decide, ?_⟩
+    unfold MsgTyped
+    simp only [show rtNested.isNullable = true from rfl, if_true]
+    right
+    refine ⟨[("L", .slice (some [.sc (.w32 7), .sc (.w32 0xffffffff)]))], by simp [getVal, rtNested, rtObj, GoVal.field?, List.lookup], ?_⟩
+    simp only [RTOKs, RTOK, List.map_nil, List.mem_nil_iff, not_false_eq_true, and_true]
+    refine ⟨rfl, rfl, by simp [EmptyOK, isEmptyMsg], by decide, by decide, by decide, .int64, rtList_rt, ?_⟩
+    intro e he
+    have : e = .sc (.w32 7) ∨ e = .sc (.w32 0xffffffff) := by
+      simpa [getVal, rtList, GoVal.field?, List.lookup, sliceElems] using he
+    unfold PrimVal
+    simp only [show rtList.isNullable = false from rfl, Bool.false_eq_true, if_false]
+    rcases this with rfl | rfl
+    · exact ⟨.w32 7, rfl, by simp [rtList, FieldInfo.rep, repOfGoType, C19.HasRep]⟩
+    · exact ⟨.w32 0xffffffff, rfl, by simp [rtList, FieldInfo.rep, repOfGoType, C19.HasRep]⟩
+
+/-- the example runs: −1 (0xffffffff as int32) in a nested list survives the round trip -/
+theorem C04_example_runs :
+    (match copyTo { info := { name := "M" }, fields := rtFields } rtObj (.obj false false none (some rtTys)) with
+     | .ok r => (match copyFrom [] { info := { name := "M" }, fields := rtFields } r.tf (.struct []) with
+        | .ok b => c04Check { info := { name := "M" }, fields := rtFields } rtObj b.obj && b.diags.isEmpty && r.diags.isEmpty
+        | _ => false)
+     | _ => false) = true := by
+  decide
 
 end PGT.Props.C04
